@@ -53,6 +53,9 @@ type c09Case struct {
 	Up      string `json:"up"`       // options: codec code, "" = nil
 	Frag    int64  `json:"frag"`     // options: DownstreamFragmentSize (-1 = nil); probe-frag: FragmentSize
 	Mtu     uint32 `json:"mtu"`      // getUpstreamMtu() for (domain, codec) (informational)
+	// colliding-domains family: how the tunnel domain was derived from the data labels of the request's own name
+	// ("" everywhere else); it is part of the signature
+	Shape string `json:"shape,omitempty"`
 }
 
 var c09UpstreamCodecs = []enc.Encoder{
@@ -324,7 +327,10 @@ func (r *c09Runner) run(c *c09Case) {
 
 	sigBase := c.Cmd + ":" + c.Codec + ":"
 	if c.Cmd == "probe-up" {
-		sigBase = c.Cmd + "(" + c.Gen + "):" + c.Codec + ":"
+		sigBase = c.Cmd + "(" + c09GenClass(c.Gen) + "):" + c.Codec + ":"
+	}
+	if c.Shape != "" {
+		sigBase = "domain=" + c.Shape + ":" + sigBase
 	}
 	obs := map[string]interface{}{}
 	lenCls := ""
@@ -400,6 +406,14 @@ func (r *c09Runner) run(c *c09Case) {
 	}
 	if !under {
 		rec.Violation(sigBase+"name:not-under-domain", c, obs)
+	}
+	if c.Shape != "" {
+		// evidence only: the name really collides with the domain in the way the case was built for
+		if c09ShapeHolds(c.Shape, labels, domLabels) {
+			rec.Stat("colliding_names:"+c.Shape, 1)
+		} else {
+			rec.Stat("colliding_names_not_reproduced:"+c.Shape, 1)
+		}
 	}
 
 	// 3. the wire
@@ -968,6 +982,11 @@ func TestVerifC09(t *testing.T) {
 	for p := 0; p < 4; p++ {
 		items = append(items, c09Item{"client-built-requests", nil, 0, p})
 	}
+	for _, e := range c09UpstreamCodecs {
+		for p := 0; p < c09CollideParts; p++ {
+			items = append(items, c09Item{"colliding-domains", e, 0, p})
+		}
+	}
 
 	for idx, it := range items {
 		if !rec.Mine(idx) {
@@ -983,6 +1002,11 @@ func TestVerifC09(t *testing.T) {
 		}
 		if it.fam == "concurrent-users" {
 			c09Concurrent(rec, e, 8, rec.Pick(4000, 40000))
+			continue
+		}
+		if it.fam == "colliding-domains" {
+			r.colliding(e, it.part, c09CollideParts)
+			rec.Seen("codec_family", e.Name()+"/"+it.fam)
 			continue
 		}
 		tag := fmt.Sprintf("c09/%s/%s/%d/%d", it.fam, e.Name(), it.domain, it.part)
